@@ -480,6 +480,19 @@ where
     }
 }
 
+#[cfg(feature = "verif-hooks")]
+#[allow(missing_docs)]
+impl<R, Buf> SmlReader<R, Buf>
+where
+    R: ByteSource,
+    Buf: Buffer,
+{
+    /// Verification hook (feature `verif-hooks`): access to the wrapped `DecoderReader`.
+    pub fn verif_decoder_reader_mut(&mut self) -> &mut DecoderReader<Buf, R> {
+        &mut self.decoder
+    }
+}
+
 type DefaultBuffer = ArrayBuf<{ 8 * 1024 }>;
 
 /// Builder struct for `SmlReader` that allows configuring the internal buffer type.
